@@ -310,17 +310,15 @@ func run(c Case) ev.Verdict {
 		}
 
 		argv := strings.Split(strings.TrimRight(string(b), "\n"), "\n")
+		// an option counts as given in either spelling ssh accepts: "-X value" or "-Xvalue", at any
+		// position. Host, port and user are judged by what the server saw (above), not by argv.
 		has := func(seq ...string) bool {
-			for i := 0; i+len(seq) <= len(argv); i++ {
-				ok := true
-
-				for j := range seq {
-					if argv[i+j] != seq[j] {
-						ok = false
-					}
+			for i := range argv {
+				if len(seq) == 1 && (argv[i] == seq[0] || (len(seq[0]) == 2 && strings.HasPrefix(argv[i], seq[0]))) {
+					return true
 				}
 
-				if ok {
+				if len(seq) == 2 && ((i+1 < len(argv) && argv[i] == seq[0] && argv[i+1] == seq[1]) || argv[i] == seq[0]+seq[1]) {
 					return true
 				}
 			}
@@ -328,11 +326,7 @@ func run(c Case) ev.Verdict {
 			return false
 		}
 
-		if len(argv) == 0 || argv[0] != "127.0.0.1" {
-			return ev.Fail("argv does not start with the host: %q", argv)
-		}
-
-		checks := [][]string{{"-p", fmt.Sprint(srv.Port)}, {"-l", c.User}}
+		var checks [][]string
 
 		if c.NoStrict {
 			checks = append(checks, []string{"-o", "StrictHostKeyChecking=no"})
